@@ -41,6 +41,18 @@ def run(res, tier, seed):
                 for hs in ([], [('Range', 'bytes=0-0')], [('Range', 'bytes=9-1')], [('Range', 'bytes=0-0,1-1')], [('Origin', 'http://a')],
                            [('Origin', 'http://a'), ('Access-Control-Request-Method', 'PUT'), ('Access-Control-Request-Headers', 'X-A')]):
                     cases.append(K.mk(tree, m, t, hs, entry=entry, kind='status-classes'))
+    # requests that carry the headers the server itself knows (advertised client hints, CORS, caching, framing): one at a time,
+    # in three spellings, and all client hints at once
+    voc = G.vocab_headers()
+    for n in voc:
+        for spelled in (n, n.lower(), n.upper()):
+            for m, t in (('GET', p0), ('GET', '/'), ('OPTIONS', p0), ('POST', '/missing')):
+                if spelled != n and (m, t) != ('GET', p0): continue
+                cases.append(K.mk(tree, m, t, [(spelled, rng.choice(['?1', '"x86"', '8', 'x']))], entry=rng.choice(['proc', 'preq']), kind='server-vocabulary-header'))
+    hints = [(n, '?1') for n in voc if n.startswith('Sec-CH') or n in ('Downlink', 'ECT', 'RTT', 'Save-Data', 'Device-Memory')]
+    for m, t in (('GET', p0), ('HEAD', '/'), ('GET', '/missing'), ('GET', p0 + '?x=1')):
+        cases.append(K.mk(tree, m, t, hints, entry='proc', kind='server-vocabulary-header'))
+        cases.append(K.mk(tree, m, t, hints + [('Range', 'bytes=0-0')], entry='preq', kind='server-vocabulary-header'))
     cases.append(K.mk(tree, 'GET', p0, app='err:' + C.hx('boom'), kind='handler-error'))
     cases.append(K.mk(tree, 'GET', p0, raw=b'\xff\xfe', kind='unparsable'))
     batches.append((tree, cases))
@@ -53,7 +65,7 @@ def run(res, tier, seed):
     results += K.run_batches([(tree, cases[:400])], with_model=WITH_MODEL, env=env)
     judge(res, results)
     res.rule = ('every response of the C04 campaign (mutated/malformed/oversized requests, failing handlers) and of the C05 campaign, plus 9 methods x '
-                '10 targets x 6 header sets on both entry points (200, 204, 206, 400, 404, 416 paths), with CORS allow-all on and off; '
+                '10 targets x 6 header sets on both entry points (200, 204, 206, 400, 404, 416 paths), requests carrying each header name the server source mentions (three spellings) and all client hints at once, with CORS allow-all on and off; '
                 'distinct = (entry, request, handler)')
     for c, r, il, ml in results[:2]:
         res.sample({'entry': c.entry, 'request': c.raw[:80].decode('latin1'), 'headers': [h for h in (K.parse_resp(r['recv'])[0] or {'headers': []})['headers']][:6]})
